@@ -350,6 +350,10 @@ def _hist_cases(tier, rng):
         tb = rng.choice((ta, ("array", ta), rng.choice(g)[0], rng.choice(g)[0]))
         for how in ("add", "add-after-failed-replace", "rename-after-pickle", "rename-after-deepcopy", "replace"):
             yield {"src": ta, "dst": tb, "how": how}
+        # annotations written as names (what every annotation is under postponed evaluation): the names meant something
+        # else - or nothing yet - when an earlier pipeline was built from the same functions
+        yield {"src": ta, "dst": tb, "how": "names-rebound",
+               "first": rng.choice((None, (rng.choice(g)[0], rng.choice(g)[0]), (tb, ta)))}
 
 
 def _check_hist(case):
@@ -373,11 +377,31 @@ def _check_hist(case):
     producer.__annotations__ = {"x": int, "return": a}
     consumer.__annotations__ = {"y": b, "return": int}
     other.__annotations__ = {"w": b, "return": int}
+    how = case["how"]
+    if how == "names-rebound":
+        producer.__annotations__ = {"x": int, "return": "_VF_NAME_SRC"}
+        consumer.__annotations__ = {"y": "_VF_NAME_DST", "return": int}
     f = pipefunc(output_name="y")(producer)
     g = pipefunc(output_name="z")(consumer)
-    how = case["how"]
     try:
-        if how == "add":
+        if how == "names-rebound":
+            import warnings
+            gl = producer.__globals__
+            gl.pop("_VF_NAME_SRC", None), gl.pop("_VF_NAME_DST", None)
+            if case.get("first") is not None:
+                gl["_VF_NAME_SRC"], gl["_VF_NAME_DST"] = _ann(case["first"][0]), _ann(case["first"][1])
+            try:
+                with warnings.catch_warnings():
+                    warnings.simplefilter("ignore")
+                    Pipeline([f, g])  # the earlier pipeline (its verdict is on what the names meant then)
+            except TypeError:
+                pass
+            gl["_VF_NAME_SRC"], gl["_VF_NAME_DST"] = a, b
+            try:
+                p = Pipeline([f, g])
+            finally:
+                gl.pop("_VF_NAME_SRC", None), gl.pop("_VF_NAME_DST", None)
+        elif how == "add":
             p = Pipeline([f])
             p.add(g)
         elif how == "add-after-failed-replace":
